@@ -79,6 +79,15 @@ def main():
     for (d, m, y) in ((1, 7, 1999), (27, 2, 2000), (30, 12, 1899), (28, 2, 2100)):
         for n in (3, 31, 10, 400, 1200, 2, 1500):
             cases.append(('valid', d, m, y, n))
+    # long runs ("for any number of steps", "a full 400-year cycle and beyond"): single runs longer than one, two and (thorough)
+    # three and four complete Gregorian cycles of 146097 days, from random start dates - a generator that recycles an earlier
+    # cycle or keeps a running count in a narrower type only shows beyond the first repetition
+    for k in range(2 if quick else 8):
+        y = rng.randint(-400, 8000)
+        m = rng.randint(1, 12)
+        d = rng.randint(1, mlen(m, y))
+        cycles = [2, 1, 3, 4, 2, 3, 1, 4][k]
+        cases.append(('valid', d, m, y, cycles * 146097 + rng.randint(366, 5000)))
     lines = []
     for (kind, d, m, y, n) in cases:
         frac = 0.0 if kind == 'valid' else rng.choice([0.0, 0.5, 0.99])
@@ -89,7 +98,7 @@ def main():
                 'random': lambda t: rng.choice([-3.0, 0.5, 2.0, 30.0, 365.0, 1e5]),
                 'special': lambda t: rng.choice([float('nan'), float('inf'), -0.0, 5e-324])}[pat]
         lines.append(kcase('DateGenerator', [d + (frac if d >= 0 else -frac), float(m), float(y)], [], [[tick(t) for t in range(n)]]))
-    impl = run_impl(lines, timeout=90)
+    impl = run_impl(lines, timeout=300)
     model = run_model(lines)
     # environment independence: the emitted dates are the proleptic Gregorian calendar, not somebody's civil time, so
     # the process's time zone must not matter; a sample is re-run with the zone database embedded (-tags timetzdata)
